@@ -113,7 +113,12 @@ class Session:
             for ks, v in (op.get("rp_attrs") or {}).items():
                 # caller-supplied values for annotator-managed features (to be overridden)
                 attrs[c.keyname[int(ks)]] = [float(v)] * (c.ndim - 1) if int(ks) == F.K_POS else float(v)
-            px = c.idx_tuple(op["pixels"]) if op.get("pixels") else None
+            if op.get("pixels") and c.cfg != "seg":
+                # pixels passed to tracks WITHOUT a segmentation (refused: nothing may stay behind)
+                n_ = len(op["pixels"])
+                px = tuple(np.zeros(n_, dtype=np.int64) for _ in range(c.ndim))
+            else:
+                px = c.idx_tuple(op["pixels"]) if op.get("pixels") else None
             UserAddNode(t, op["id"], attrs, pixels=px, force=bool(op["force"]))
         elif k == "delnode":
             if op.get("pixels") is not None:
@@ -693,6 +698,8 @@ def run_session(prop: str, spec: dict, rng: random.Random, nops: int, res: Resul
             op = G.gen_op(rng, case, tracks, kinds, always_recompute=prop in ("C08", "C09"))
             if prop == "C10" and op["op"] == "disable" and F.K_BOGUS not in op["keys"] and rng.random() < 0.2:
                 op["keys"] = [k for k in op["keys"] if k != F.K_TID] + [F.K_TID]
+        if prop in ("C07", "C09") and queue is None and op["op"] == "addnode" and case.cfg == "seg" and op.get("pixels") is None:
+            op.pop("pos", None)  # a node without pixels is outside C07's consistent states (caller's choice)
         if tid_off or (op["op"] == "disable" and F.K_TID in op.get("keys", [])):
             op["_nomodel"] = 1
         step += 1
@@ -1078,8 +1085,19 @@ def prim_cases(prop: str, rng: random.Random, n: int, res: Result) -> list[Failu
                     continue
                 e = rng.choice(pairs)
                 desc["edge"] = e
-                mline = f"SP addedge {e[0]} {e[1]} 0"
-                make = lambda: AddEdge(t, e)  # noqa: E731
+                eat: dict[str, Any] = {}
+                enc: dict[int, Any] = {}
+                if rng.random() < 0.5:
+                    # the optional `attributes=`: a custom value, and (while IoU is managed) a stale
+                    # value for the managed key, which the annotator has to override
+                    eat["w"] = rng.randrange(100)
+                    enc[F.K_W] = eat["w"]
+                    if case.cfg == "seg" and case.iou_active(t):
+                        eat["iou"] = float(rng.randrange(2, 9))
+                        enc[F.K_IOU] = int(eat["iou"])
+                desc["attributes"] = dict(eat)
+                mline = f"SP addedge {e[0]} {e[1]} " + " ".join(case.enc_attrs(enc))
+                make = (lambda: AddEdge(t, e, attributes=dict(eat))) if eat else (lambda: AddEdge(t, e))  # noqa: E731
             elif kind == "DeleteEdge":
                 if not g.edges:
                     continue
@@ -1199,6 +1217,332 @@ def prim_correspondence(prop: str, jobs: list, res: Result) -> list[Failure]:
 
 
 # ---------------------------------------------------------------------------------------------
+# the same properties through the (deprecated, still shipped) `TracksController` entry points:
+# add_nodes / delete_nodes / add_edges / delete_edges / swap_predecessors / update_node_attrs /
+# update_segmentations / undo / redo, with one or SEVERAL elements per call. Oracle only (the
+# model has no controller); a silent refusal (warning + return) counts as a refusal.
+# ---------------------------------------------------------------------------------------------
+def controller_sessions(prop: str, rng: random.Random, n: int, res: Result) -> list[Failure]:
+    import warnings as _w
+
+    from funtracks.data_model.tracks_controller import TracksController
+    fails: list[Failure] = []
+    seen: set = set()
+
+    def state_problems(case, t) -> list[str]:
+        g = t.graph
+        if prop == "C03":
+            return forest_problems(t)
+        if prop == "C04":
+            return partition_problems(g, segments(g), {x: g.nodes[x].get("track_id") for x in g.nodes}, "track id")
+        if prop == "C05":
+            return partition_problems(g, list(nx.weakly_connected_components(g)),
+                                      {x: g.nodes[x].get("lineage_id") for x in g.nodes}, "lineage id")
+        if prop == "C06":
+            return lookup_problems(t, case.shape[0] if case.shape else 5)
+        if prop == "C07" and case.cfg == "seg":
+            return seg_problems(case, t)
+        if prop == "C08" and case.cfg == "seg":
+            return rp_problems(case, t)
+        if prop == "C09" and case.cfg == "seg":
+            return iou_problems(case, t)
+        return []
+
+    for _ in range(n):
+        spec = gen_spec_for(prop, rng)
+        if spec.get("orphan_labels") or spec.get("prebuilt_no_lineage"):
+            continue
+        try:
+            ses = Session(spec)
+            with _w.catch_warnings():
+                _w.simplefilter("ignore")
+                ctl = TracksController(ses.tracks)
+        except Exception as e:
+            res.count(f"session-aborted:{type(e).__name__}")
+            continue
+        case, t = ses.case, ses.tracks
+        kinds = [k for k in ("addedge", "deledge", "addnode", "addnode", "delnode", "swap", "updattrs", "updattrs", "paint", "undo", "undo", "redo")
+                 if case.cfg == "seg" or k != "paint"]
+        hist: list = []
+        timeline = [observe(t)]
+        cursor = 0
+        for _step in range(rng.randint(4, 10)):
+            op = G.gen_op(rng, case, t, kinds)
+            g = t.graph
+            kind = op["op"]
+            multi = 1
+            before_all = observe_all(t)
+            before_obs = observe(t)
+            before_refresh = ses.refresh
+            nu, nr = len(t.action_history.undo_stack), len(t.action_history.redo_stack)
+            call = None
+            try:
+                if kind == "addedge":
+                    call = lambda: ctl.add_edges([(op["u"], op["v"])], force=bool(op["force"]))  # noqa: E731
+                elif kind == "deledge":
+                    call = lambda: ctl.delete_edges([(op["u"], op["v"])])  # noqa: E731
+                elif kind == "delnode":
+                    call = lambda: ctl.delete_nodes([op["n"]])  # noqa: E731
+                elif kind == "swap":
+                    call = lambda: ctl.swap_predecessors((op["a"], op["b"]))  # noqa: E731
+                elif kind == "undo":
+                    call = ctl.undo
+                elif kind == "redo":
+                    call = ctl.redo
+                elif kind == "updattrs":
+                    ns = list(g.nodes)
+                    if not ns:
+                        continue
+                    k_ = rng.randint(1, min(3, len(ns)))
+                    targets = rng.sample(ns, k_)
+                    op = {"op": "updattrs", "nodes": targets, "attrs": {"score": [rng.randrange(100) for _ in targets]}}
+                    call = lambda: ctl.update_node_attrs(op["nodes"], op["attrs"])  # noqa: E731
+                elif kind == "paint":
+                    if "groups" not in op:
+                        op["groups"] = [[px, ov] for px, ov in paint_groups(case, t, op)]
+                    idx = case.idx_tuple(op["pixels"])
+                    old = t.segmentation[idx].copy()
+
+                    def call():
+                        t.segmentation[idx] = op["value"]
+                        upd = [(case.idx_tuple(px), ov) for px, ov in op["groups"]]
+                        try:
+                            ctl.update_segmentations(op["value"], upd, int(idx[0][0]), op["tid"], force=bool(op["force"]))
+                        except Exception:
+                            t.segmentation[idx] = old
+                            raise
+                elif kind == "addnode":
+                    if op.get("time") is None or op.get("tid") is None:
+                        continue
+                    if case.cfg == "seg":
+                        if not op.get("pixels"):
+                            continue
+                        # one or two nodes in ONE call; with two, not in ascending time order
+                        items = [op]
+                        if rng.random() < 0.5:
+                            t2 = rng.randrange(case.shape[0])
+                            free2 = [p_ for p_ in G.free_pixels(case, t, t2) if p_ not in op["pixels"]]
+                            if free2:
+                                op2 = {"id": G.fresh_node_id(rng, t), "time": t2, "tid": t.get_next_track_id() + 1,
+                                       "pixels": rng.sample(free2, rng.randint(1, min(3, len(free2))))}
+                                if op2["id"] != op["id"]:
+                                    items = sorted([op, op2], key=lambda o: -o["time"])
+                        multi = len(items)
+                        attrs = {"time": [o["time"] for o in items], "track_id": [o["tid"] for o in items],
+                                 "node_id": [o["id"] for o in items]}
+                        pix = [case.idx_tuple(o["pixels"]) for o in items]
+                        op = {"op": "addnode", "items": [{k: o[k] for k in ("id", "time", "tid", "pixels")} for o in items], "force": op["force"]}
+                        call = lambda: ctl.add_nodes(attrs, pixels=pix, force=bool(op["force"]))  # noqa: E731
+                    else:
+                        if op.get("pos") is None:
+                            continue
+                        attrs = {"time": [op["time"]], "track_id": [op["tid"]]}
+                        if case.cfg == "axes":
+                            for a in F.axis_names(case.ndim):
+                                attrs[a] = [float(op["pos"])]
+                        else:
+                            attrs["pos"] = [[float(op["pos"])] * (case.ndim - 1)]
+                        call = lambda: ctl.add_nodes(attrs, force=bool(op["force"]))  # noqa: E731
+                else:
+                    continue
+                signal.signal(signal.SIGALRM, _alarm)
+                signal.alarm(STEP_TIMEOUT)
+                try:
+                    with _w.catch_warnings():
+                        _w.simplefilter("ignore")
+                        r = call()
+                    out = ("true" if r else "false") if kind in ("undo", "redo") else "returned"
+                finally:
+                    signal.alarm(0)
+            except Hang:
+                fails.append(Failure("hang", prop, f"{prop}|controller|hang|{kind}", f"controller call {op} did not return",
+                                     {"spec": spec, "controller_history": hist + [op]}))
+                break
+            except (InvalidActionError, ValueError, KeyError, nx.NetworkXError) as e:
+                out = "raised:" + type(e).__name__
+            except Exception as e:  # noqa: BLE001
+                out = "raised-other:" + type(e).__name__
+            hist.append({k: v for k, v in op.items() if k != "groups"} | {"_out": out})
+            res.evaluations += 1
+            grown = len(t.action_history.undo_stack) - nu
+            redo_delta = len(t.action_history.redo_stack) - nr
+            changed_hist = grown != 0 or redo_delta != 0
+            # a new entry made after undos first moves the pending redo entries onto the undo stack
+            entries = grown - nr if (grown > 0 and kind not in ("undo", "redo")) else grown
+            res.count(f"controller:{kind}:" + (out.split(":")[0] if kind not in ("undo", "redo") else out) + (f":x{multi}" if multi > 1 else ""))
+            res.nontrivial.add(h([spec["nodes"], spec["edges"], hist[-1]]))
+
+            def fail(sig: str, what: str):
+                s_ = f"{prop}|controller|{sig}"
+                if s_ not in seen:
+                    seen.add(s_)
+                    fails.append(Failure("oracle", prop, s_, f"TracksController session {[{k: v for k, v in o.items()} for o in hist][-4:]}: {what}",
+                                         {"spec": spec, "controller_history": copy.deepcopy(hist)}))
+
+            stop = False
+            if out.startswith("raised-other"):
+                fail(f"{kind}|unexpected-exception", f"{op} raised {out}")
+                break
+            refused = kind not in ("undo", "redo") and not changed_hist
+            if kind in ("undo", "redo"):
+                if prop in ("C02", "C01"):
+                    exp = (cursor > 0) if kind == "undo" else (cursor + 1 < len(timeline))
+                    if exp:
+                        cursor += -1 if kind == "undo" else 1
+                    if (out == "true") != exp:
+                        fail(f"{kind}|return-value", f"{kind}() returned {out}, timeline cursor {cursor} of {len(timeline)}")
+                        stop = True
+                    elif observe(t) != timeline[cursor]:
+                        fail(f"{kind}|state-not-on-timeline", obs_diff(timeline[cursor], observe(t)))
+                        stop = True
+                if prop == "C20" and (ses.refresh - before_refresh) != (1 if out == "true" else 0):
+                    fail(f"{kind}|refresh-count", f"{kind}() -> {out} emitted {ses.refresh - before_refresh} refreshes")
+                    stop = True
+            elif refused:
+                if prop == "C11" and observe_all(t) != before_all and not only_unregistered_lost(before_all, observe_all(t), t):
+                    fail(f"{kind}|refused-changed-state", f"refused {op} ({out}): " + obs_diff(before_all, observe_all(t)))
+                    stop = True
+                if prop in ("C11", "C20") and ses.refresh != before_refresh:
+                    fail(f"{kind}|refused-refresh", f"refused {op} ({out}) emitted a refresh")
+                    stop = True
+            elif multi > 1 and out.startswith("raised"):
+                # several user actions in one call, a later one refused: the earlier ones stand
+                # (each is a user action of its own); steps and refreshes must still agree
+                if prop == "C20" and (ses.refresh - before_refresh) != entries:
+                    fail(f"{kind}|refresh-count", f"{op}: {entries} accepted user action(s), {ses.refresh - before_refresh} refreshes")
+                    stop = True
+                if prop in ("C02", "C01"):
+                    break
+            else:
+                # accepted: `multi` user actions in one call (add_nodes of several nodes), else one
+                if prop in ("C02", "C01", "C20") and entries != multi:
+                    fail(f"{kind}|steps-per-call", f"{op}: {multi} user action(s) became {entries} undo step(s)")
+                    stop = True
+                elif prop in ("C02", "C01") and multi == 1:
+                    back = timeline[cursor:len(timeline) - 1][::-1]
+                    timeline = timeline + back + [observe(t)]
+                    cursor = len(timeline) - 1
+                    if prop == "C01":
+                        after = observe(t)
+                        u_ = ctl.undo()
+                        if not u_ or observe(t) != before_obs:
+                            fail(f"{kind}|undo-does-not-restore", obs_diff(before_obs, observe(t)))
+                            stop = True
+                        r_ = ctl.redo()
+                        if not stop and (not r_ or observe(t) != after):
+                            fail(f"{kind}|redo-does-not-reapply", obs_diff(after, observe(t)))
+                            stop = True
+                elif prop in ("C02", "C01"):
+                    break  # several steps without the intermediate states: end the timeline here
+                if prop == "C20" and (ses.refresh - before_refresh) != multi:
+                    fail(f"{kind}|refresh-count", f"{op}: {multi} user action(s), {ses.refresh - before_refresh} refreshes")
+                    stop = True
+                if prop == "C07" and kind == "paint" and case.cfg == "seg":
+                    pass
+            for p_ in (state_problems(case, t) if not stop else []):
+                fail(f"{kind}|{p_.split(':')[0]}", f"after {op} ({out}): {p_}")
+                stop = True
+                break
+            if stop:
+                break
+    return fails
+
+
+# ---------------------------------------------------------------------------------------------
+# C10 at the level of primitive actions: a disabled feature keeps its stored values through
+# every primitive and its inverse — including the rare annotator branches (a node that is left
+# without any pixel, a node added without pixels)
+# ---------------------------------------------------------------------------------------------
+def prim_frozen_cases(prop: str, rng: random.Random, n: int, res: Result) -> list[Failure]:
+    from funtracks.actions import AddNode, UpdateNodeAttrs, UpdateNodeSeg
+    fails: list[Failure] = []
+    seen: set = set()
+    for _ in range(n):
+        spec = G.gen_case(rng, cfg="seg", with_ids=True)
+        try:
+            ses = Session(spec)
+        except Exception as e:
+            res.count(f"session-aborted:{type(e).__name__}")
+            continue
+        case, t = ses.case, ses.tracks
+        g = t.graph
+        if not g.number_of_nodes():
+            continue
+        shape_ok = case.ndim == 3 and case.scale in (None, [1.0] * 3)
+        pool = ["area"] + (["circularity", "perimeter", "ellipse_axis_radii"] if shape_ok else [])
+        off = rng.sample(pool, rng.randint(1, len(pool)))
+        try:
+            t.enable_features([k for k in off if k != "area"] or ["area"])
+            t.disable_features(off)
+        except Exception as e:
+            res.count(f"prim-frozen:setup-raised:{type(e).__name__}")
+            continue
+        frozen = {k: {x: canon_value(g.nodes[x].get(k)) for x in g.nodes} for k in off}
+        desc: dict[str, Any] = {"disabled": off, "steps": []}
+        last = None
+        for _step in range(rng.randint(1, 4)):
+            ns = list(g.nodes)
+            if not ns:
+                break
+            kind = rng.choice(["erase-all", "erase-part", "grow", "addnode-bare", "inverse", "updattrs"])
+            try:
+                if kind in ("erase-all", "erase-part", "grow"):
+                    x = rng.choice(ns)
+                    own = case.pixels_of(t, x)
+                    if kind == "grow":
+                        free = G.free_pixels(case, t, g.nodes[x]["time"])
+                        if not free:
+                            continue
+                        pl = rng.sample(free, rng.randint(1, min(3, len(free))))
+                    elif not own:
+                        continue
+                    else:
+                        pl = list(own) if kind == "erase-all" else rng.sample(own, rng.randint(1, len(own)))
+                    desc["steps"].append([kind, x, pl])
+                    last = UpdateNodeSeg(t, x, case.idx_tuple(pl), added=(kind == "grow"))
+                elif kind == "addnode-bare":
+                    nid = G.fresh_node_id(rng, t)
+                    tm = rng.randrange(case.shape[0])
+                    desc["steps"].append([kind, nid, tm])
+                    last = AddNode(t, nid, {"time": tm, "track_id": t.get_next_track_id(), "pos": [1.0] * (case.ndim - 1)})
+                elif kind == "inverse":
+                    if last is None:
+                        continue
+                    desc["steps"].append([kind])
+                    last = last.inverse()
+                else:
+                    x = rng.choice(ns)
+                    desc["steps"].append([kind, x])
+                    last = UpdateNodeAttrs(t, x, {"score": rng.randrange(100)})
+            except Exception as e:
+                res.count(f"prim-frozen:{kind}:raised:{type(e).__name__}")
+                break
+            res.evaluations += 1
+            res.count(f"prim-frozen:{kind}")
+            res.nontrivial.add(h([spec["nodes"], desc["steps"], off]))
+            bad = None
+            for k, vals in frozen.items():
+                for x, v in list(vals.items()):
+                    if x not in g:
+                        vals.pop(x)
+                        continue
+                    now = canon_value(g.nodes[x].get(k))
+                    if now != v:
+                        bad = f"disabled {k} of node {x} changed {v} -> {now}"
+                        break
+                if bad:
+                    break
+            if bad:
+                sig = f"{prop}|prim|{kind}|disabled-feature-changed"
+                if sig not in seen:
+                    seen.add(sig)
+                    fails.append(Failure("oracle", prop, sig, f"primitive actions {desc['steps']} with {off} disabled: {bad}",
+                                         {"spec": spec, "prim_frozen": copy.deepcopy(desc)}))
+                break
+    return fails
+
+
+# ---------------------------------------------------------------------------------------------
 # C08/C09 on plain `Tracks` (not a solution): any DAG, including MERGES (a node with several
 # parents, also from one frame — candidate graphs look like this), edited through the primitive
 # actions and their inverses, with the features switched off and on again in between
@@ -1279,8 +1623,15 @@ def plain_tracks_cases(prop: str, rng: random.Random, n: int, res: Result) -> li
                         continue
                     e = rng.choice(pairs)
                     what = ["addedge", list(e)]
-                    last = AddEdge(t, e)
-                    did(f"SP addedge {e[0]} {e[1]} 0")
+                    if prop == "C09" and case.iou_active(t) and rng.random() < 0.4:
+                        # a stale value for the managed key in the optional `attributes=`
+                        stale = float(rng.randrange(2, 9))
+                        what.append({"iou": stale})
+                        last = AddEdge(t, e, attributes={"iou": stale})
+                        did(f"SP addedge {e[0]} {e[1]} " + " ".join(case.enc_attrs({F.K_IOU: int(stale)})))
+                    else:
+                        last = AddEdge(t, e)
+                        did(f"SP addedge {e[0]} {e[1]} 0")
                 elif st == "deledge":
                     if not gg.edges:
                         continue
@@ -1590,6 +1941,23 @@ def exhaustive_cases() -> list[dict]:
 # shard worker and entry points
 # ---------------------------------------------------------------------------------------------
 def gen_spec_for(prop: str, rng: random.Random) -> dict:
+    if prop == "C08" and rng.random() < 0.3:
+        # labels without a node ("unselected detections"): they can be turned into nodes later by
+        # adding the node WITHOUT pixels; the measurements must then come from the existing mask
+        spec = G.gen_case(rng, cfg="seg")
+        if not spec.get("id_base"):
+            fr = int(np.prod(spec["shape"][1:]))
+            used = {x["id"] for x in spec["nodes"]}
+            for _ in range(rng.randint(1, 2)):
+                lab = next(i for i in range(60, 200) if i not in used)
+                used.add(lab)
+                t = rng.randrange(spec["shape"][0])
+                free = [t * fr + o for o in range(fr) if spec["seg"][t * fr + o] == 0]
+                if free:
+                    for p_ in rng.sample(free, min(len(free), rng.randint(1, 4))):
+                        spec["seg"][p_] = lab
+            spec["orphan_labels"] = True
+        return spec
     if prop in SEG_ONLY:
         return G.gen_case(rng, cfg="seg")
     if prop == "C10":
@@ -1706,6 +2074,12 @@ def worker(args) -> Result:
             res.failures.append(f)
     if prop in ("C08", "C09") and fixed is None:
         for f in plain_tracks_cases(prop, random.Random(seed ^ 0x91A1), max(10, nsessions // 3), res):
+            res.failures.append(f)
+    if prop in ("C01", "C02", "C03", "C04", "C05", "C06", "C07", "C08", "C09", "C11", "C20") and fixed is None:
+        for f in controller_sessions(prop, random.Random(seed ^ 0xC7A1), max(6, nsessions // 8), res):
+            res.failures.append(f)
+    if prop == "C10" and fixed is None:
+        for f in prim_frozen_cases(prop, random.Random(seed ^ 0xF0E), max(20, nsessions // 2), res):
             res.failures.append(f)
     if prop == "C01" and fixed is None:
         for f in prim_cases(prop, random.Random(seed ^ 0x5EED), max(20, nsessions), res):
